@@ -137,6 +137,22 @@ func solveOne(r *Result, dir string, i int, sec int, two bool) {
 	if len(unsatBy) < need && satAns == nil {
 		note(runSolverCtx(context.Background(), solvers[2], file, sec))
 	}
+	// 4. second chance: an obligation nobody decided is tried again by z3 5.x under two other random seeds
+	// (a proof that depends on a lucky heuristic choice would otherwise make the check flaky under load);
+	// any "unsat" is a proof, whatever the seed
+	if len(unsatBy) < need && satAns == nil {
+		for _, seed := range []int{7, 23} {
+			sd := seed
+			sp := solverSpec{fmt.Sprintf("z3-new/seed%d", sd), func(f string, s int) []string {
+				return []string{"z3-new", fmt.Sprintf("-T:%d", s), fmt.Sprintf("smt.random_seed=%d", sd), fmt.Sprintf("sat.random_seed=%d", sd), f}
+			}}
+			a := runSolverCtx(context.Background(), sp, file, sec)
+			if a.status == "unsat" {
+				unsatBy = append(unsatBy, a.name)
+				break
+			}
+		}
+	}
 	switch {
 	case satAns != nil && len(unsatBy) > 0:
 		r.Status = "error"
